@@ -5,6 +5,8 @@
              linear in its parameters (func_ex(p, ns, pts) = Spectrum(sum_k p_k B_k)); the inner get_godambe call is
              recorded (arguments it received, matrices it returned)
   chi2     : sum_chi2_ppf
+Container types of the arguments (default = what the documentation names): "nested_as", "fp_as", "p0_as", "boots_as",
+"adjusts_as", "pts_as" in {list, tuple, array}.  A godambe op that raises still reports the get_godambe calls it made.
 Every op clears Godambe.cache first unless it says  "keep_cache": true  (call histories).
 """
 import sys, json, warnings, logging, gc
@@ -85,6 +87,13 @@ def make_func_ex(Bs, shape, B0=None):
 
 _persistent = {}
 
+def as_container(v, kind, dtype=float):
+    if kind == 'tuple':
+        return tuple(v)
+    if kind == 'array':
+        return np.array(v, dtype=dtype)
+    return list(v)
+
 def op_godambe(c):
     shape = list(c['shape'])
     key = json.dumps([c['Bs'], shape, c.get('B0')])
@@ -108,17 +117,30 @@ def op_godambe(c):
             b.mask = np.logical_or(b.mask, m)
     if c.get('boots_as_arrays'):
         boots = [np.ma.masked_array(b.data, mask=b.mask) for b in boots]   # get_godambe converts with Spectrum(boot)
-    p0 = [float(x) for x in c['p0']]
-    pts = c.get('pts', [10])
+    p0_list = [float(x) for x in c['p0']]
+    p0 = as_container(p0_list, c.get('p0_as', 'list'))
+    if c.get('boots_as') == 'tuple':
+        boots = tuple(boots)
+    pts = as_container(c.get('pts', [10]), c.get('pts_as', 'list'), dtype=int)
     eps = c['eps']
     rec = {'id': c['id']}
     inner = []
     orig = Godambe.get_godambe
     def spy(func_ex_, grid_pts, all_boot, p0_, data_, eps_, log=False, just_hess=False, boot_theta_adjusts=[]):
-        out = orig(func_ex_, grid_pts, all_boot, p0_, data_, eps_, log, just_hess=just_hess, boot_theta_adjusts=boot_theta_adjusts)
         r = {'p0': fll(p0_), 'eps': float(eps_), 'log': bool(log), 'just_hess': bool(just_hess),
              'adjusts': None if boot_theta_adjusts is None or len(boot_theta_adjusts) == 0 else fll(boot_theta_adjusts),
              'nboot': len(all_boot)}
+        try:
+            out = orig(func_ex_, grid_pts, all_boot, p0_, data_, eps_, log, just_hess=just_hess, boot_theta_adjusts=boot_theta_adjusts)
+        except Exception as e:
+            # the matrices could not be completed (singular J, ...): record the Hessian alone, which get_godambe computes first
+            r['raised'] = type(e).__name__ + ': ' + str(e)[:200]
+            try:
+                r['H'] = fmat(orig(func_ex_, grid_pts, all_boot, p0_, data_, eps_, log, just_hess=True))
+            except Exception as e2:
+                r['H_raised'] = type(e2).__name__ + ': ' + str(e2)[:200]
+            inner.append(r)
+            raise
         if just_hess:
             r['H'] = fmat(out)
         else:
@@ -129,18 +151,23 @@ def op_godambe(c):
     try:
         fn = c['fn']
         nested = c.get('nested')
+        if nested is not None:
+            nested = as_container([int(t) for t in nested], c.get('nested_as', 'list'), dtype=int)
         adj = c.get('adjusts')
+        if adj is not None:
+            adj = as_container(adj, c.get('adjusts_as', 'list'))
+        fp = as_container(c['full_params'], c.get('fp_as', 'array')) if c.get('full_params') is not None else None
         if fn == 'get_godambe':
             kw = {}
             if adj is not None:
-                kw['boot_theta_adjusts'] = list(adj)
+                kw['boot_theta_adjusts'] = adj
             out = Godambe.get_godambe(func_ex, pts, boots, p0, data, eps, log=c.get('log', False),
                                       just_hess=c.get('just_hess', False), **kw)
             rec['val'] = None
         elif fn == 'GIM_uncert':
             kw = {}
             if adj is not None:
-                kw['boot_theta_adjusts'] = list(adj)
+                kw['boot_theta_adjusts'] = adj
             u, G, H = Godambe.GIM_uncert(func_ex, pts, boots, p0, data, log=c.get('log', False), multinom=c['multinom'],
                                          eps=eps, return_GIM=True, **kw)
             u2 = Godambe.GIM_uncert(func_ex, pts, boots, p0, data, log=c.get('log', False), multinom=c['multinom'], eps=eps, **kw) \
@@ -154,23 +181,32 @@ def op_godambe(c):
         elif fn == 'LRT_adjust':
             kw = {}
             if adj is not None:
-                kw['boot_theta_adjusts'] = list(adj)
-            rec['val'] = [fl(Godambe.LRT_adjust(func_ex, pts, boots, p0, data, list(nested), multinom=c['multinom'], eps=eps, **kw))]
+                kw['boot_theta_adjusts'] = adj
+            rec['val'] = [fl(Godambe.LRT_adjust(func_ex, pts, boots, p0, data, nested, multinom=c['multinom'], eps=eps, **kw))]
         elif fn == 'Wald_stat':
-            a, o = Godambe.Wald_stat(func_ex, pts, boots, p0, data, list(nested), np.array(c['full_params'], dtype=float),
+            a, o = Godambe.Wald_stat(func_ex, pts, boots, p0, data, nested, fp,
                                      multinom=c['multinom'], eps=eps, adj_and_org=True)
             rec['val'] = [fl(a), fl(o)]
             if c.get('also_plain'):
-                rec['val_plain'] = [fl(Godambe.Wald_stat(func_ex, pts, boots, p0, data, list(nested), np.array(c['full_params'], dtype=float),
+                rec['val_plain'] = [fl(Godambe.Wald_stat(func_ex, pts, boots, p0, data, nested, fp,
                                                          multinom=c['multinom'], eps=eps))]
         elif fn == 'score_stat':
-            a, o = Godambe.score_stat(func_ex, pts, boots, p0, data, list(nested), multinom=c['multinom'], eps=eps, adj_and_org=True)
+            a, o = Godambe.score_stat(func_ex, pts, boots, p0, data, nested, multinom=c['multinom'], eps=eps, adj_and_org=True)
             rec['val'] = [fl(a), fl(o)]
+            if c.get('also_plain'):
+                rec['val_plain'] = [fl(Godambe.score_stat(func_ex, pts, boots, p0, data, nested, multinom=c['multinom'], eps=eps))]
         else:
             raise ValueError('fn ' + fn)
+    except Exception as e:
+        import traceback
+        rec['error'] = type(e).__name__ + ': ' + str(e)[:300]
+        rec['tb'] = traceback.format_exc()[-1500:]
     finally:
         Godambe.get_godambe = orig
     rec['inner'] = inner
+    rec['args_unchanged'] = bool(list(p0) == p0_list and (nested is None or [int(t) for t in nested] == [int(t) for t in c['nested']])
+                                 and (fp is None or [float(t) for t in fp] == [float(t) for t in c['full_params']]))
+    p0 = p0_list
     # what the log-likelihood sums over, and the constants of ll
     model0 = func_ex(p0, data.sample_sizes, pts)
     lpb = dadi.Inference.ll_per_bin(model0, data)
